@@ -53,3 +53,35 @@ PROPS["C01"] = {
     "outside": "sequences longer than the bound (covered inductively through the representation invariant checked on the post-state); values containing ';' or newline (command terminators on the wire); non-ASCII values",
     "assumptions": ["representation invariant of a stored key assumed on the pre-state and re-checked on the post-state: New => disk offsets 0, Deleted => value '<Empty>'", "environment shims"],
 }
+
+PROPS["C17"] = {
+    "level": "model_checking",
+    "harnesses": [
+        {"name": "c17_events", "params": {"quick": {"events": 4, "sessions": 2}, "thorough": {"events": 5, "sessions": 3}}},
+    ],
+    "bounds": {"quick": "all sequences of 4 events over 2 sessions and 2 databases; event in {use-db d1, use-db d2, use-db with a wrong token, a refused command, disconnect = unwatch-all + Client::left (the sequence of all three transports)}; a disconnected slot reconnects as a fresh session",
+               "thorough": "5 events, 3 sessions"},
+    "outside": "user-token sessions (same handler branch shape), interleaved sessions (the counter is an AtomicUsize behind a write lock), watcher notifications of $connections",
+    "assumptions": ["environment shims"],
+}
+PROPS["C19"] = {
+    "level": "model_checking",
+    "harnesses": [
+        {"name": "c19_seq", "params": {"quick": {"writes": 3}, "thorough": {"writes": 5}}, "covers": ["newer.stale-write-seen"]},
+        {"name": "c19_race2", "covers": ["newer.race-a-last", "newer.race-b-last"]},
+    ],
+    "bounds": {"quick": "3 consecutive writes (plain or versioned with any version in [0,1000)) to one key of a newer-strategy database with op ids from a symbolic non-decreasing clock (ties allowed); 2 concurrent set-safe writers (any versions in [-1, cur+1]) under all lock-level interleavings",
+               "thorough": "5 writes"},
+    "outside": "replication of the same writes to secondaries (see C04); more than 2 concurrent writers",
+    "assumptions": ["environment shims", "partial-order reduction: session locks, the database table and the metrics averages are not yield points (checked for contention)"],
+}
+PROPS["C20"] = {
+    "level": "model_checking",
+    "harnesses": [
+        {"name": "c20_body", "params": {"quick": {"statements": 3}, "thorough": {"statements": 4}}},
+    ],
+    "bounds": {"quick": "all HTTP bodies of 3 statements over 14 statement kinds (auth ok/bad, use-db ok/bad, get, set, stale set-safe, remove, increment ok/non-numeric, keys, create-db refused/allowed/duplicate, secure-key get, blank statement) through the real process_commands",
+               "thorough": "4 statements"},
+    "outside": "WebSocket on_message splitting (ws crate event loop not sliced); user-token sessions",
+    "assumptions": ["environment shims"],
+}
